@@ -3,8 +3,12 @@
 Spec: spec/TypeGate.tla (+ MCTypeGate.tla, TraceTypeGate.tla).
 S->I: TLC enumerates verdict tables: for every script item of a family (all Roto types of
       depth <= 1 in return and in parameter position, all filtermap forms, the arity ladder
-      0..8 with one deviating position / swapped parameters / name classes; thorough: also
-      depth 2 and 3) the set of Rust signatures of the family's universe that must be handed
+      0..8 with one deviating position / swapped parameters / name classes; script-declared
+      NAMESAKES of every leaf identifier - `record Asn {..}` / `enum u32 {..}` in the root module
+      (pkg.Asn, shadowing the built-in; such items are grouped into scripts that do not use the
+      built-in of that name) and in a sub-module (pkg.ns.Asn) - bare and under Option / List /
+      Result / Verdict in parameter, return and filtermap-payload position, with the real leaves
+      as controls; thorough: also depth 2 and 3) the set of Rust signatures of the family's universe that must be handed
       out; everything else of the universe must be refused.  python prints the items as a Roto
       script, the harness compiles it once and calls get_function::<F>(name) for every F of the
       universe (compiled-in table harness/src/tables/c04_types.rs, generated from TLC's Universe
@@ -26,8 +30,8 @@ import vlib
 from vlib import Evidence, Verdicts, run_tlc, require_tlc_ok
 
 PID = "C04"
-QUICK_FAMILIES = ["d1ret", "d1par", "fm", "ladder"]
-THOROUGH_FAMILIES = ["allret", "allpar", "fm", "ladder"]
+QUICK_FAMILIES = ["d1ret", "d1par", "fm", "ladder", "ns"]
+THOROUGH_FAMILIES = ["allret", "allpar", "fm", "ladder", "ns"]
 REASONS = ["name", "arity", "param", "ret"]
 
 # ------------------------------------------------------------------ representation mapping
@@ -43,10 +47,107 @@ def sig_id(s):
     return "fn(%s)->%s" % (",".join(term_id(p) for p in s["params"]), term_id(s["ret"]))
 
 
+# --- script-declared namesakes of leaf types: "pkg.<L>" (root module) / "pkg.ns.<L>" (sub-module ns) ---
+NS_BASES = sorted(["bool", "u8", "u16", "u32", "u64", "i8", "i16", "i32", "i64", "f32", "f64", "char", "String", "Asn",
+                   "IpAddr", "Prefix", "RegA", "RegB"])
+
+
+def is_namesake(leaf):
+    return leaf.startswith("pkg.")
+
+
+def ns_where(leaf):
+    return "sub" if leaf.startswith("pkg.ns.") else "root"
+
+
+def ns_base(leaf):
+    return leaf[len("pkg.ns."):] if leaf.startswith("pkg.ns.") else leaf[len("pkg."):]
+
+
+def ns_path(leaf):
+    """how the script writes the type: the bare identifier (root namesake shadows the built-in) or ns.<L>"""
+    return ("ns." + ns_base(leaf)) if ns_where(leaf) == "sub" else ns_base(leaf)
+
+
+def ns_partner(base):
+    return "i64" if base == "u64" else "u64"
+
+
+def ns_kind(base, where):
+    """record / enum (with a payload variant) / unit-only enum: how the script declares the namesake.
+    Inside module ns every leaf identifier is shadowed, so the field types u64 / i64 are themselves
+    namesakes there; they are declared as payload-free enums to keep the declarations acyclic."""
+    if where == "sub" and base in ("u64", "i64"):
+        return "enum0"
+    k = NS_BASES.index(base) + (1 if where == "sub" else 0)
+    return "record" if k % 2 == 0 else "enum"
+
+
+def ns_decl(base, where):
+    kind = ns_kind(base, where)
+    if kind == "record":
+        return "record %s { lo: %s }" % (base, ns_partner(base))
+    if kind == "enum":
+        return "enum %s { A, B(%s) }" % (base, ns_partner(base))
+    return "enum %s { A, B }" % base
+
+
+def ns_default(leaf):
+    base, where = ns_base(leaf), ns_where(leaf)
+    if ns_kind(base, where) == "record":
+        field = "0" if where == "root" else "ns.%s.A" % ns_partner(base)
+        return "%s { lo: %s }" % (ns_path(leaf), field)
+    return "%s.A" % ns_path(leaf)
+
+
+def term_leaves(t, out):
+    if len(t) == 1:
+        out.add(t[0])
+    for x in t[1:]:
+        term_leaves(x, out)
+
+
+def item_leaves(item):
+    out = set()
+    for p in item["params"]:
+        term_leaves(p, out)
+    if item["kind"] == "fn":
+        term_leaves(item["ret"], out)
+    else:
+        for side in (item["acc"], item["rej"]):
+            if side[0] not in ("unused", "bare", "intlit", "floatlit"):
+                term_leaves(side, out)
+    return out
+
+
+def script_groups(named_items):
+    """A root namesake shadows the built-in of that identifier in the whole root module, so an item that
+    mentions pkg.<L> cannot live in a script that also mentions the built-in L (or uses it as the field
+    type of a namesake declaration).  Items without root namesakes all go to group 0."""
+    groups = [{"roots": set(), "builtins": set(), "idx": []}]
+    for k, (_, item) in enumerate(named_items):
+        leaves = item_leaves(item)
+        roots = {ns_base(l) for l in leaves if is_namesake(l) and ns_where(l) == "root"}
+        if not roots:
+            groups[0]["idx"].append(k)
+            continue
+        builtins = {l for l in leaves if not is_namesake(l)} | {ns_partner(b) for b in roots}
+        for g in groups[1:]:
+            if not ((g["roots"] | roots) & (g["builtins"] | builtins)):
+                break
+        else:
+            g = {"roots": set(), "builtins": set(), "idx": []}
+            groups.append(g)
+        g["roots"] |= roots
+        g["builtins"] |= builtins
+        g["idx"].append(k)
+    return [g["idx"] for g in groups if g["idx"]]
+
+
 def roto_type(t, alt=0):
     """Roto source text of a Roto type term (alt selects `T?` vs `Option[T]`)."""
     if len(t) == 1:
-        return t[0]
+        return ns_path(t[0]) if is_namesake(t[0]) else t[0]
     if t[0] == "Option":
         inner = roto_type(t[1], alt)
         if alt % 2 == 1 and t[1][0] != "Option":
@@ -66,7 +167,7 @@ LEAF_DEFAULT = {
 def default_expr(t):
     """An expression of Roto type t (only needed so that the declaration type checks)."""
     if len(t) == 1:
-        return LEAF_DEFAULT[t[0]]
+        return ns_default(t[0]) if is_namesake(t[0]) else LEAF_DEFAULT[t[0]]
     if t[0] == "Option":
         return "None"
     if t[0] == "List":
@@ -137,21 +238,26 @@ def item_source(item, name, alt=0):
 
 
 def script_source(named_items):
-    lines = ["record Rec { x: i32 }",
-             "fn helper_user(a: String, b: List[String], c: Rec) -> bool { let d = c; a == \"x\" && b == [a] && d.x == 1 }"]
+    leaves = set()
+    for _, item in named_items:
+        leaves |= item_leaves(item)
+    roots = sorted({ns_base(l) for l in leaves if is_namesake(l) and ns_where(l) == "root"})
+    subs = sorted({ns_base(l) for l in leaves if is_namesake(l) and ns_where(l) == "sub"})
+    if roots:
+        # the root module declares namesakes: nothing else may mention the shadowed identifiers
+        lines = [ns_decl(b, "root") for b in roots]
+    else:
+        lines = ["record Rec { x: i32 }",
+                 "fn helper_user(a: String, b: List[String], c: Rec) -> bool { let d = c; a == \"x\" && b == [a] && d.x == 1 }"]
     for k, (name, item) in enumerate(named_items):
         lines.append(item_source(item, name, k))
     text = "\n".join(lines) + "\n"
-    # The script-only record is given the name of a built-in leaf type in some scripts (a namesake declared
-    # by the script is a different type, pkg.<Name>, and must never be confused with the built-in of that
-    # name) - only when the script does not use that built-in itself.
-    import re as _re
-    used = set(_re.findall(r"\b(Asn|Prefix|IpAddr)\b", text)) | ({"Asn"} if "AS0" in text else set())
-    if "1.1.1.1" in text or "1.0.0.0/8" in text:
-        used |= {"IpAddr", "Prefix"}
-    cands = [n for n in ("Asn", "Prefix", "IpAddr") if n not in used]
-    if cands and len(named_items) % 2 == 0:
-        text = _re.sub(r"\bRec\b", cands[len(named_items) % len(cands)], text)
+    if subs:
+        # sub-module ns (harness: `//@module <name>`): u64 / i64 are always declared there because the
+        # other namesakes use them as field / payload types
+        decl = sorted(set(subs) | {ns_partner(b) for b in subs})
+        decl = sorted(set(decl) | {ns_partner(b) for b in decl if ns_kind(b, "sub") != "enum0"})
+        text += "//@module ns\n" + "\n".join(ns_decl(b, "sub") for b in decl) + "\n"
     return text
 
 
@@ -316,12 +422,21 @@ def probe_family(family):
     """TLC + harness for one family (runs in a worker thread; no shared state is touched)."""
     r, universe = tlc_family(family)
     named_items, cases, expected, uids = cases_of_family(family, r.replay, universe)
-    script, err = write_script(family, named_items)
-    if err:
-        return (family, r, universe, uids, expected, cases, None, script, err)
     sets = write_sets(family, {family: uids})
-    results = vlib.run_batch("c04", cases, extra=[script, sets], nproc=6, pid=PID, tag=family, stall=120)
-    return (family, r, universe, uids, expected, cases, results, script, None)
+    groups = script_groups(named_items)
+    results = [None] * len(cases)
+    for gno, idx in enumerate(groups):
+        tag = family if len(groups) == 1 else "%s_g%d" % (family, gno)
+        items = [named_items[k] for k in idx]
+        names = {n for n, _ in items}
+        script, err = write_script(tag, items)
+        if err:
+            return (family, r, universe, uids, expected, cases, None, script, err)
+        sel = [k for k, e in enumerate(expected) if e["name"] in names]
+        res = vlib.run_batch("c04", [cases[k] for k in sel], extra=[script, sets], nproc=6, pid=PID, tag=tag, stall=120)
+        for k, x in zip(sel, res):
+            results[k] = x
+    return (family, r, universe, uids, expected, cases, results, None, None)
 
 
 def account_family(data, ev, verd, stats):
@@ -349,6 +464,25 @@ def account_family(data, ev, verd, stats):
             for side in (exp["item"]["acc"], exp["item"]["rej"]):
                 f = side[0] if side[0] in ("unused", "bare", "intlit", "floatlit") else "typed"
                 stats["fm_sides"][f] = stats["fm_sides"].get(f, 0) + 1
+        if family == "ns":
+            it = exp["item"]
+            if it["kind"] == "fn":
+                pos, t = ("param", it["params"][0]) if it["params"] else ("return", it["ret"])
+            else:
+                pos, t = "filtermap", (it["acc"] if it["acc"][0] not in ("unused", "bare") else it["rej"])
+            lv = set()
+            term_leaves(t, lv)
+            nsl = [l for l in lv if is_namesake(l)]
+            where = ns_where(nsl[0]) if nsl else "control"
+            key = "%s/%s/%s" % (where, pos, "bare" if len(t) == 1 else "under-" + t[0])
+            stats["ns_rows"][key] = stats["ns_rows"].get(key, 0) + 1
+            if nsl:
+                kk = "declared-as-" + ns_kind(ns_base(nsl[0]), where)
+                stats["ns_rows"][kk] = stats["ns_rows"].get(kk, 0) + 1
+                if exp["ok"]:
+                    raise vlib.ToolError("the specification hands out a function that mentions a namesake type")
+            elif exp["ok"]:
+                stats["ns_rows"]["control-handed-out"] = stats["ns_rows"].get("control-handed-out", 0) + 1
         for i in exp["ok"]:
             for s in sig_symbols(table()[i]["term"]):
                 stats["ok_sym"][s] = stats["ok_sym"].get(s, 0) + 1
@@ -388,7 +522,9 @@ def gen_mutate_type(rng, t):
     if len(t) > 1 and rng.random() < 0.6:
         k = rng.randrange(1, len(t))
         return t[:k] + [gen_mutate_type(rng, t[k])] + t[k + 1:]
-    m = rng.randrange(7)
+    m = rng.randrange(8)
+    if m == 6 and len(t) == 1 and t[0] in NS_BASES:
+        return ["pkg.ns." + t[0]]                       # the script's own type of that identifier (module ns)
     if m == 0:
         return ["Option", t]
     if m == 1:
@@ -405,7 +541,7 @@ def gen_mutate_type(rng, t):
                 "i64": "u64", "f32": "f64", "f64": "f32", "char": "u32", "Asn": "u32", "String": "char",
                 "IpAddr": "Prefix", "Prefix": "IpAddr", "RegA": "RegB", "RegB": "RegA", "()": "bool", "bool": "u8",
                 "Rec": "RegA"}
-        return [near[t[0]]]
+        return [ns_base(t[0])] if is_namesake(t[0]) else [near[t[0]]]
     return gen_random_type(rng, 1)
 
 
@@ -606,7 +742,7 @@ def validate_events(path, events, ev, verd):
 def new_stats():
     return {"pairs": 0, "probes": 0, "called": 0, "impl_errs": {}, "reasons": {k: 0 for k in REASONS + ["ok"]},
             "rows_by_class": {}, "rows_by_kind": {}, "fm_sides": {}, "ok_sym": {}, "err_sym": {}, "families": {},
-            "helpers": 0, "helper_names": set()}
+            "helpers": 0, "helper_names": set(), "ns_rows": {}}
 
 
 RUST_SYMBOLS = ["bool", "u8", "u16", "u32", "u64", "i8", "i16", "i32", "i64", "f32", "f64", "char", "RotoString", "Asn",
@@ -633,6 +769,16 @@ def vacuity_guard(stats):
             raise vlib.ToolError("no handed-out Rust signature mentions %s" % s)
     if stats["ok_sym"].get("Val<Unreg>"):
         raise vlib.ToolError("the specification hands out a signature with an unregistered type")
+    for where in ("root", "sub", "control"):
+        for pos in ("param", "return"):
+            for shape in ("bare", "under-Option", "under-List", "under-Result", "under-Verdict"):
+                if not stats["ns_rows"].get("%s/%s/%s" % (where, pos, shape)):
+                    raise vlib.ToolError("no namesake row %s/%s/%s (vacuous)" % (where, pos, shape))
+        if not stats["ns_rows"].get("%s/filtermap/bare" % where):
+            raise vlib.ToolError("no namesake filtermap row for %s" % where)
+    for k in ("declared-as-record", "declared-as-enum", "control-handed-out"):
+        if not stats["ns_rows"].get(k):
+            raise vlib.ToolError("no namesake row %s (vacuous)" % k)
     if stats["helpers"] == 0:
         raise vlib.ToolError("the ladder script produced no compiler-generated helper to probe")
     for k in ("DoesNotExist", "IncorrectNumberOfArguments", "TypeMismatch:argument", "TypeMismatch:return"):
@@ -669,6 +815,7 @@ def run(tier):
     ev.extra["rows_by_name_class"] = stats["rows_by_class"]
     ev.extra["rows_by_item_kind"] = stats["rows_by_kind"]
     ev.extra["filtermap_side_forms"] = stats["fm_sides"]
+    ev.extra["namesake_rows"] = stats["ns_rows"]
     ev.extra["handed_out_signatures_mentioning"] = stats["ok_sym"]
     ev.extra["compiler_generated_helpers_probed"] = sorted(n for n in stats["helper_names"] if n.startswith("::"))[:12]
     ev.extra["trace_events"] = stats.get("trace_events", 0)
@@ -682,7 +829,10 @@ def run(tier):
         "arities 0..7 on the Rust side (RotoFunc is implemented for 0..7), 0..8 on the Roto side; multi-parameter signatures "
         "only on the ladder (one deviating position, swapped neighbours) and in the seeded random pass",
         "the set of requestable Rust types is the compiled-in table (generated from TLC's Universe sets)",
-        "only single-file scripts (function names without module path); tests (`test` items) are not probed",
+        "functions are declared in the root module only (names without module path); one sub-module `ns` holds "
+        "script-declared namesake types; tests (`test` items) are not probed",
+        "namesakes: one record or enum per leaf identifier and module (root / ns), nested one level; no Rust type may "
+        "retrieve them (neither the same-named leaf nor Val<T> registered under that name)",
         "error kind (DoesNotExist / IncorrectNumberOfArguments / TypeMismatch) is recorded, not asserted",
     ]
     rc = verd.finish()
